@@ -341,7 +341,8 @@ func run(c Case, o *vt.Obs) *vt.Failure {
 				return vt.Failf(prop+"/message-size", i, "iterate %s: chunk %d has %d bytes", tlog.FmtRange(req), ci, ch.SizeVT())
 			}
 			if ci > 0 && len(ch.Kvs) == 0 && !want.CountOnly {
-				return vt.Failf(prop+"/empty-chunk", i, "iterate %s: chunk %d of %d is empty", tlog.FmtRange(req), ci, len(chunks))
+				// legal ("split into consecutive messages"): where a stream is cut, and whether a message may be empty, is the server's business
+				o.Label("stream-with-an-empty-message")
 			}
 		}
 		merged, merr := tlog.MergeChunks(chunks)
@@ -354,9 +355,10 @@ func run(c Case, o *vt.Obs) *vt.Failure {
 		if cerr := model.CheckRangeResponse(want, merged, false); cerr != nil {
 			return vt.Failf(prop+"/stream-"+classify(cerr), i, "iterate %s (%d chunks): %v", tlog.FmtRange(req), len(chunks), cerr)
 		}
-		// first chunk of the stream == unary answer
-		if !want.Single && (len(chunks[0].Kvs) != len(got.Kvs) || chunks[0].More != got.More) {
-			return vt.Failf(prop+"/unary-vs-stream", i, "range %s: unary page has %d pairs more=%v, first streamed chunk %d pairs more=%v", tlog.FmtRange(req), len(got.Kvs), got.More, len(chunks[0].Kvs), chunks[0].More)
+		// (An earlier version demanded "first chunk of the stream == unary answer": how the pinned tree happens to cut, not what C09 states -
+		// false alarm 15 in DESIGN section 6.)
+		if !want.Single && len(chunks[0].Kvs) != len(got.Kvs) {
+			o.Label("stream-cut-differently-from-the-unary-page")
 		}
 		if sizeCut || len(chunks) > 1 {
 			nt = true
